@@ -254,7 +254,7 @@ func runC07(c *Ctx) {
 		probe := r.Intn(10)
 		useLabels := probe < 6 && r.Chance(1, 2)
 		eg.atoms = append(eg.atoms, pureAtoms...)
-		{ // every position sees the predefined constants, FOR counts included
+		if probe != 7 || !asm.Legacy { // every position sees the predefined constants, FOR counts included
 			for _, cn := range []string{"CORESIZE", "MAXLENGTH", "MAXPROCESSES", "MINDISTANCE"} {
 				if r.Chance(1, 3) {
 					eg.atoms = append(eg.atoms, asm.Ref{Name: cn})
@@ -335,7 +335,7 @@ func runC07(c *Ctx) {
 				c.Inc("asserts_inside_for_bodies")
 			} else {
 				p.Asserts = []asm.Expr{e1}
-				if r.Chance(1, 3) {
+				if r.Chance(1, 3) && !asm.Legacy {
 					// the assert line may follow a label that stands on a line of its own
 					p.Items = append(p.Items, dat("own"))
 					scatter = true
